@@ -419,7 +419,19 @@ def _check_total(h: dict, data: bytes, allow_zero: bool) -> None:
 def read(data: bytes, dev: dict, keys: Optional[dict] = None, policy: Optional[str] = None,
          verify: bool = True) -> dict:
     """Acceptance (verify=True) or structural reading only (verify=False: layout, lengths, offsets,
-    flags are still checked; CRC, HMAC, certificate chain, signatures and digests are not)."""
+    flags are still checked; CRC, HMAC, certificate chain, signatures and digests are not).
+
+    A ROM never 'crashes' on a damaged image: anything the parsers below cannot digest (damaged DER,
+    unknown algorithm identifiers, truncated structures) is a refusal with stage 'malformed'."""
+    try:
+        return _read(data, dev, keys, policy, verify)
+    except Reject:
+        raise
+    except Exception as e:  # noqa
+        raise Reject("malformed", f"{type(e).__name__}: {e}")
+
+
+def _read(data: bytes, dev: dict, keys: Optional[dict], policy: Optional[str], verify: bool) -> dict:
     data = bytes(data)
     keys = keys or {}
     h = _common(data, dev, policy)
